@@ -59,7 +59,7 @@ ANCHORS = ['pfhedge.features.features:UnderlierSpot.get',
            'pfhedge.nn.modules.hedger:Hedger.compute_hedge',
            'pfhedge.nn.functional:pl']
 PYTEST_WORKLOAD = True  # thorough tier also runs /repo/tests with these passive monitors attached (DESIGN.md 2.7)
-DECIDING = ["binding.stays_bound", "buffer.untouched", "args.untouched", "history.independent"]
+DECIDING = ["history.module_independent", "args.alias_invariant", "history.parameters_reassigned", "binding.stays_bound", "buffer.untouched", "args.untouched", "history.independent"]
 REQUIRED_BRANCHES = ["seq.listed_hedge", "feature.log_all_steps", "feature.module_output", "listed.spot", "op.fit", "op.to", "op.price", "seq.dtype_switch",
                      "seq.path_count_switch"]
 
@@ -352,6 +352,201 @@ def drv_functional(ctx, k, rng):
     F.box_muller(u1, u2)
 
 
+def _same(a, b):
+    return a.shape == b.shape and a.dtype == b.dtype and bool(((a == b) | (torch.isnan(a) & torch.isnan(b))).all())
+
+
+def drv_alias(ctx, k, rng):
+    """The same tensor object handed in for two arguments is the same input as two equal tensors."""
+    from pfhedge.nn import Clamp, EntropicLoss, QuadraticCVaR
+
+    dtype = pick(rng, [F32, F64])
+    n, T = int(pick(rng, [2, 5])), int(pick(rng, [3, 6]))
+    pos = t(np.exp(rng.standard_normal((n, 1, T)) * 0.2), dtype)
+    x = t(rng.standard_normal((8, 3)), dtype)
+    s = t(rng.uniform(-0.3, 0.3, 6), dtype)
+    w = t(rng.uniform(0.1, 0.5, 6), dtype)
+    cases = {
+        "pl(spot, unit=spot)": lambda a, b: F.pl(a, b, cost=[1e-3]),
+        "terminal_value(spot, unit=spot)": lambda a, b: F.terminal_value(a, b, cost=[1e-3]),
+        "clamp(x, min=x)": lambda a, b: F.clamp(a, b, None),
+        "leaky_clamp(x, max=x)": lambda a, b: F.leaky_clamp(a, None, b, clamped_slope=0.1),
+        "Clamp()(x, x, x)": lambda a, b: Clamp()(a, b, b),
+        "EntropicRiskMeasure(x, target=x)": lambda a, b: EntropicRiskMeasure()(a, b),
+        "ExpectedShortfall(x, target=x)": lambda a, b: ExpectedShortfall(0.5)(a, b),
+        "EntropicLoss.cash(x, target=x)": lambda a, b: EntropicLoss().cash(a, b),
+        "QuadraticCVaR(x, target=x)": lambda a, b: QuadraticCVaR(2.0)(a, b),
+        "bs_american_binary_price(s, max=s)": lambda a, b: F.bs_american_binary_price(a, b, w, w),
+        "bs_lookback_price(s, max=s)": lambda a, b: F.bs_lookback_price(a, b, w, w, 1.1),
+        "bs_lookback_delta(s, max=s)": lambda a, b: F.bs_lookback_delta(a, b, w, w, 1.1),
+        "bs_lookback_gamma(s, max=s)": lambda a, b: F.bs_lookback_gamma(a, b, w, w, 1.1),
+        "bs_lookback_vega(s, max=s)": lambda a, b: F.bs_lookback_vega(a, b, w, w, 1.1),
+        "bs_european_price(s, t=v)": lambda a, b: F.bs_european_price(s, a, b),
+        "bilerp(x, x, x, x)": lambda a, b: F.bilerp(a, b, a, b, 0.3, 0.6),
+        "box_muller(u, u)": lambda a, b: torch.stack(F.box_muller(a, b)),
+    }
+    args = {"pl": pos, "te": pos, "cl": x, "le": x, "Cl": x, "En": x, "Ex": x, "Qu": x, "bs_a": s, "bs_l": s, "bs_e": w, "bi": x, "bo": torch.rand(6, dtype=dtype) * 0.9 + 0.05}
+    mon = "args.alias_invariant"
+    for name, fn in cases.items():
+        key = next(k_ for k_ in sorted(args, key=len, reverse=True) if name.startswith(k_))
+        a = args[key]
+        ctx.seen(mon)
+        try:
+            with torch.enable_grad():
+                want = fn(a, a.clone()).detach()
+                a.requires_grad_(False)
+                got = fn(a, a).detach()
+                a.requires_grad_(False)
+        except (ValueError, RuntimeError) as ex:
+            if "lower < upper" in str(ex) or "max_iter" in str(ex):
+                ctx.skipped(mon, "search_did_not_bracket")
+                continue
+            raise
+        ctx.check(mon, _same(got, want), "alias_dependence", f"{name}: the result with one tensor object given for both arguments differs from the result with an equal copy",
+                  sig=(name, str(dtype)), same_object=got.reshape(-1)[:4], equal_copy=want.reshape(-1)[:4])
+
+
+def _attr_cases(rng):
+    """(label, constructor(values), attribute values A, attribute values B, use(obj) -> tensor)"""
+    from pfhedge.instruments import (AmericanBinaryOption, BrownianStock, EuropeanBinaryOption, EuropeanForwardStartOption, EuropeanOption, HestonStock, KouJumpStock,
+                                     LookbackOption, MertonJumpStock, VarianceSwap, VasicekRate)
+    from pfhedge.nn import (BSAmericanBinaryOption, BSEuropeanBinaryOption, BSEuropeanOption, BSLookbackOption, Clamp, EntropicLoss, IsoelasticLoss, LeakyClamp,
+                            QuadraticCVaR, SVIVariance)
+
+    x = t(rng.standard_normal((9, 2)), F64)
+    s = t(rng.uniform(-0.3, 0.3, 5), F64)
+    w = t(rng.uniform(0.1, 0.5, 5), F64)
+
+    def sim(p):
+        torch.manual_seed(11)
+        p.simulate(n_paths=3, time_horizon=4 * p.dt)
+        return torch.stack([b for _, b in sorted(p.named_buffers())])
+
+    def pay(d):
+        torch.manual_seed(11)
+        d.simulate(n_paths=4)
+        return d.payoff()
+
+    stock = lambda: BrownianStock(sigma=0.3, dtype=F64)  # noqa: E731
+    return [
+        ("EntropicRiskMeasure.a", lambda a: EntropicRiskMeasure(a), dict(a=1.0), dict(a=2.5), lambda m: m(x)),
+        ("EntropicLoss.a", lambda a: EntropicLoss(a), dict(a=1.0), dict(a=2.5), lambda m: torch.stack([m(x), m.cash(x)])),
+        ("IsoelasticLoss.a", lambda a: IsoelasticLoss(a), dict(a=0.5), dict(a=1.0), lambda m: m(x.abs() + 0.2)),
+        ("ExpectedShortfall.p", lambda p: ExpectedShortfall(p), dict(p=0.2), dict(p=0.7), lambda m: torch.stack([m(x), m.cash(x)])),
+        ("QuadraticCVaR.lam", lambda lam: QuadraticCVaR(lam), dict(lam=2.0), dict(lam=9.0), lambda m: m(x)),
+        ("Clamp.inverted_output", lambda inverted_output: Clamp(inverted_output=inverted_output), dict(inverted_output="mean"), dict(inverted_output="max"),
+         lambda m: m(x, x.flip(0) + 0.1, x.flip(0) - 0.1)),
+        ("LeakyClamp.clamped_slope", lambda clamped_slope: LeakyClamp(clamped_slope), dict(clamped_slope=0.01), dict(clamped_slope=0.3), lambda m: m(x, -0.3, 0.4)),
+        ("SVIVariance", lambda a, b, rho, m, sigma: SVIVariance(a, b, rho, m, sigma), dict(a=0.02, b=0.3, rho=-0.3, m=0.0, sigma=0.2),
+         dict(a=0.05, b=0.1, rho=0.4, m=0.1, sigma=0.5), lambda m: m(s)),
+        ("BSEuropeanOption", lambda call, strike: BSEuropeanOption(call=call, strike=strike), dict(call=True, strike=1.0), dict(call=False, strike=1.3),
+         lambda m: torch.stack([m.price(s, w, w), m.delta(s, w, w), m.gamma(s, w, w)])),
+        ("BSEuropeanBinaryOption", lambda call, strike: BSEuropeanBinaryOption(call=call, strike=strike), dict(call=True, strike=1.0), dict(call=False, strike=1.3),
+         lambda m: torch.stack([m.price(s, w, w), m.delta(s, w, w)])),
+        ("BSLookbackOption.strike", lambda strike: BSLookbackOption(strike=strike), dict(strike=1.0), dict(strike=0.8), lambda m: m.price(s, s + 0.1, w, w)),
+        ("BSAmericanBinaryOption.strike", lambda strike: BSAmericanBinaryOption(strike=strike), dict(strike=1.0), dict(strike=0.8), lambda m: m.delta(s, s + 0.1, w, w)),
+        ("BrownianStock", lambda sigma, mu, dt: BrownianStock(sigma=sigma, mu=mu, dt=dt, dtype=F64), dict(sigma=0.2, mu=0.0, dt=1 / 250), dict(sigma=0.5, mu=0.1, dt=1 / 52), sim),
+        ("HestonStock", lambda kappa, theta, sigma, rho: HestonStock(kappa=kappa, theta=theta, sigma=sigma, rho=rho, dtype=F64), dict(kappa=1.0, theta=0.04, sigma=0.2, rho=-0.7),
+         dict(kappa=2.0, theta=0.09, sigma=0.4, rho=0.2), sim),
+        ("MertonJumpStock", lambda sigma, jump_per_year, jump_mean, jump_std: MertonJumpStock(sigma=sigma, jump_per_year=jump_per_year, jump_mean=jump_mean, jump_std=jump_std, dtype=F64),
+         dict(sigma=0.2, jump_per_year=68.0, jump_mean=0.0, jump_std=0.01), dict(sigma=0.3, jump_per_year=20.0, jump_mean=-0.05, jump_std=0.05), sim),
+        ("KouJumpStock", lambda sigma, jump_per_year, jump_mean_up, jump_mean_down, jump_up_prob: KouJumpStock(sigma=sigma, jump_per_year=jump_per_year, jump_mean_up=jump_mean_up,
+                                                                                                                jump_mean_down=jump_mean_down, jump_up_prob=jump_up_prob, dtype=F64),
+         dict(sigma=0.2, jump_per_year=68.0, jump_mean_up=0.02, jump_mean_down=0.05, jump_up_prob=0.5), dict(sigma=0.3, jump_per_year=10.0, jump_mean_up=0.05, jump_mean_down=0.02, jump_up_prob=0.2), sim),
+        ("VasicekRate", lambda kappa, theta, sigma: VasicekRate(kappa=kappa, theta=theta, sigma=sigma, dtype=F64), dict(kappa=1.0, theta=0.04, sigma=0.04), dict(kappa=3.0, theta=0.01, sigma=0.1), sim),
+        ("EuropeanOption", lambda call, strike, maturity: EuropeanOption(stock(), call=call, strike=strike, maturity=maturity), dict(call=True, strike=1.0, maturity=5 / 250),
+         dict(call=False, strike=1.05, maturity=9 / 250), pay),
+        ("LookbackOption", lambda call, strike, maturity: LookbackOption(stock(), call=call, strike=strike, maturity=maturity), dict(call=True, strike=1.0, maturity=5 / 250),
+         dict(call=False, strike=1.05, maturity=9 / 250), pay),
+        ("AmericanBinaryOption", lambda call, strike, maturity: AmericanBinaryOption(stock(), call=call, strike=strike, maturity=maturity), dict(call=True, strike=1.0, maturity=5 / 250),
+         dict(call=False, strike=0.98, maturity=9 / 250), pay),
+        ("EuropeanBinaryOption", lambda call, strike, maturity: EuropeanBinaryOption(stock(), call=call, strike=strike, maturity=maturity), dict(call=True, strike=1.0, maturity=5 / 250),
+         dict(call=False, strike=1.01, maturity=9 / 250), pay),
+        ("EuropeanForwardStartOption", lambda strike, maturity, start: EuropeanForwardStartOption(stock(), strike=strike, maturity=maturity, start=start),
+         dict(strike=1.0, maturity=8 / 250, start=2 / 250), dict(strike=1.02, maturity=10 / 250, start=4 / 250), pay),
+        ("VarianceSwap", lambda strike, maturity: VarianceSwap(stock(), strike=strike, maturity=maturity), dict(strike=0.04, maturity=5 / 250), dict(strike=0.09, maturity=9 / 250), pay),
+    ]
+
+
+def drv_reassign(ctx, k, rng):
+    """Parameters are plain public attributes (shown by repr): an object whose parameters were assigned after construction - possibly after it has been
+    used - behaves exactly like a fresh object constructed with those values."""
+    cases = _attr_cases(rng)
+    label, ctor, va, vb, use = cases[k % len(cases)]
+    used_first = bool(rng.random() < 0.5)
+    obj = ctor(**va)
+    with torch.no_grad():
+        if used_first:
+            use(obj)
+            ctx.branch("reassign.after_use")
+        for n_, v_ in vb.items():
+            setattr(obj, n_, v_)
+        got = use(obj)
+        want = use(ctor(**vb))
+    mon = "history.parameters_reassigned"
+    ctx.seen(mon)
+    ctx.check(mon, _same(got, want), "reassigned_parameter_ignored", f"{label}: after assigning {vb} to an object constructed with {va}"
+              f"{' and used' if used_first else ''}, it does not behave like a fresh object constructed with {vb}", sig=(label, used_first),
+              reassigned=got.reshape(-1)[:6], fresh=want.reshape(-1)[:6])
+
+
+def drv_module_history(ctx, k, rng):
+    """A criterion / pricing / helper module evaluated on one input and then on another gives, on the second, what a fresh module gives."""
+    import copy as _copy
+
+    from pfhedge.nn import (BSAmericanBinaryOption, BSEuropeanBinaryOption, BSEuropeanOption, BSLookbackOption, Clamp, EntropicLoss, IsoelasticLoss, LeakyClamp, Naked,
+                            QuadraticCVaR, SVIVariance)
+    from pfhedge.nn.modules.loss import OCE
+
+    dtype = pick(rng, [F32, F64])
+
+    def xs(scale):
+        return t(rng.standard_normal((int(pick(rng, [7, 7, 30])), 2)) * scale, dtype)
+
+    def bs_args():
+        s = t(rng.uniform(-0.3, 0.3, 5), dtype)
+        return s, s + t(rng.uniform(0, 0.2, 5), dtype), t(rng.uniform(0.05, 1.0, 5), dtype), t(rng.uniform(0.1, 0.6, 5), dtype)
+
+    mods = [
+        ("EntropicRiskMeasure", EntropicRiskMeasure(2.0), lambda m, a: torch.stack([m(a), m.cash(a)])),
+        ("EntropicLoss", EntropicLoss(0.7), lambda m, a: torch.stack([m(a), m.cash(a)])),
+        ("IsoelasticLoss", IsoelasticLoss(0.5), lambda m, a: m(a.abs() + 0.2)),
+        ("ExpectedShortfall", ExpectedShortfall(0.3), lambda m, a: torch.stack([m(a), m.cash(a)])),
+        ("QuadraticCVaR", QuadraticCVaR(3.0), lambda m, a: torch.stack([m(a), m.cash(a)])),
+        ("OCE", OCE(lambda x_: -torch.exp(-x_)).to(dtype), lambda m, a: m(a.clamp(-4, 4))),
+        ("Clamp", Clamp(), lambda m, a: m(a, a.flip(0) - 0.3, a.flip(0) + 0.2)),
+        ("LeakyClamp", LeakyClamp(0.1), lambda m, a: m(a, -0.4, 0.5)),
+        ("SVIVariance", SVIVariance(0.03, 0.2, -0.3, 0.0, 0.3), lambda m, a: m(a)),
+        ("Naked", Naked(2), lambda m, a: m(a)),
+    ]
+    for cls in (BSEuropeanOption, BSEuropeanBinaryOption):
+        mods.append((cls.__name__, cls(call=bool(rng.random() < 0.5), strike=1.1), lambda m, a: torch.stack([m.price(a[0], a[2], a[3]), m.delta(a[0], a[2], a[3]),
+                                                                                                               m.gamma(a[0], a[2], a[3]), m.vega(a[0], a[2], a[3])])))
+    for cls in (BSLookbackOption, BSAmericanBinaryOption):
+        mods.append((cls.__name__, cls(strike=0.9), lambda m, a: torch.stack([m.price(*a), m.delta(*a), m.gamma(*a)])))
+    name, mod, use = mods[k % len(mods)]
+    bs = name.startswith("BS")
+    scale1, scale2 = float(pick(rng, [0.1, 1.0, 30.0])), float(pick(rng, [0.1, 1.0, 30.0]))
+    a1 = bs_args() if bs else xs(scale1)
+    a2 = bs_args() if bs else xs(scale2)
+    fresh = _copy.deepcopy(mod)
+    mon = "history.module_independent"
+    ctx.seen(mon)
+    try:
+        use(mod, a1)
+        if rng.random() < 0.5:
+            use(mod, a1)
+        got = use(mod, a2).detach()
+        want = use(fresh, a2).detach()
+    except (ValueError, RuntimeError) as ex:
+        if "lower < upper" in str(ex) or "max_iter" in str(ex):
+            ctx.skipped(mon, "search_did_not_bracket")
+            return
+        raise
+    ctx.check(mon, _same(got, want), "module_history", f"{name}: the result on a second input depends on the input the module was evaluated on before "
+              f"(scales {scale1} then {scale2})", sig=(name, str(dtype), scale1 < scale2), used=got.reshape(-1)[:6], fresh=want.reshape(-1)[:6])
+
+
 def _make_listed(d):
     from pfhedge.instruments import EuropeanOption
 
@@ -542,4 +737,7 @@ DRIVERS = [
     ("calls", 100, 4000, drv_calls),
     ("functional", 40, 1500, drv_functional),
     ("sequences", 80, 4000, drv_sequences),
+    ("alias", 16, 400, drv_alias),
+    ("reassign", 48, 960, drv_reassign),
+    ("module_history", 56, 1400, drv_module_history),
 ]
